@@ -68,6 +68,16 @@ def run(tier, seed, ck=None):
             ck.violation('bits:%s' % ','.join(map(str, bad)), 'Bits() wrong at positions %s; %s' % (bad, [l for l in out.splitlines() if 'MISMATCH' in l][:1]), path)
         else:
             ck.inconclusive.append('solver counterexample at positions %s did not reproduce: %s' % (bad, out[-300:]))
+    if own:
+        from props import hidden
+        hf = hidden.run(ck, tier, which=('scalar',))
+        if hf and not ck.violations:
+            path = ck.save_replay({'property': 'C14', 'cases': [{'kind': 'hidden-scalar', 'n': f_[2]} for f_ in hf[:6]]})
+            ok, out = core.go_test(path)
+            if not ok and 'MISMATCH' in out:
+                ck.violation('hidden-state', 'Bits depends on hidden state after %s: %s' % (hf[0][0], [l.strip() for l in out.splitlines() if 'MISMATCH' in l][:1]), path)
+            else:
+                ck.inconclusive.append('hidden-state finding %s did not reproduce' % (hf[0],))
     return ck.finish() if own else None
 
 
